@@ -152,15 +152,15 @@ Definition slot_code (s : slot) : Z := match s with None => -1 | Some v => v end
 Definition timer_code (t : option Z) : Z := match t with None => -1 | Some d => d end.
 Definition observe (o : obj) : list Z := pv o :: timer_code (timer o) :: map slot_code (slots o).
 
-(* the 16 slots packed into one number, base 8, slot 1 in the lowest digit:
-   digit 0 = null, v+1 for a value code 0..5, 7 = anything else *)
+(* the 16 slots packed into one number, base 64, slot 1 in the lowest digit:
+   digit 0 = null, v+1 for a value code 0..61, 63 = anything else *)
 Definition slot_digit (s : slot) : Z :=
   match s with
   | None => 0
-  | Some v => if (0 <=? v) && (v <? 6) then v + 1 else 7
+  | Some v => if (0 <=? v) && (v <? 62) then v + 1 else 63
   end.
 Fixpoint pack (sl : list slot) : Z :=
-  match sl with [] => 0 | s :: r => slot_digit s + 8 * pack r end.
+  match sl with [] => 0 | s :: r => slot_digit s + 64 * pack r end.
 Definition observe_packed (o : obj) : list Z :=
   [pv o; timer_code (timer o); if Nat.eqb (length (slots o)) 16 then pack (slots o) else -1].
 
